@@ -536,11 +536,22 @@ func playEvent(v structform.ExtVisitor, e event) error {
 	case evNil, evBool, evStr, evNum:
 		return playScalar(v, e.sc)
 	case evStrRef:
-		return v.OnStringRef(append([]byte(nil), e.s...))
+		// by-reference contract: the bytes are only valid during the call - overwrite them afterwards
+		b := append([]byte(nil), e.s...)
+		err := v.OnStringRef(b)
+		for i := range b {
+			b[i] = 0xAA
+		}
+		return err
 	case evKey:
 		return v.OnKey(string(e.s))
 	case evKeyRef:
-		return v.OnKeyRef(append([]byte(nil), e.s...))
+		b := append([]byte(nil), e.s...)
+		err := v.OnKeyRef(b)
+		for i := range b {
+			b[i] = 0xAA
+		}
+		return err
 	case evArrStart:
 		return v.OnArrayStart(e.n, e.bt)
 	case evArrEnd:
